@@ -24,6 +24,8 @@ import Rl.Lemmas.LineSpan
 import Rl.Lemmas.WordSpan
 import Rl.Lemmas.Vertical
 import Rl.Lemmas.FirstPrint
+import Rl.Lemmas.CharSearchClamp
+import Rl.Lemmas.WordBeforeEnd
 set_option linter.unusedVariables false
 open Rl Rl.Spec
 
@@ -659,3 +661,138 @@ example : checkVerticalCol charSeg C04_wideU ⟨['x', 'y', 'z', '\n', 'a', 'b', 
 example : wordTargetFwd charSeg C04_exU ['a', ',', 'b', 'c'] 0 .start .vi 2 true = some 2 := by rfl
 example : LB.nextWordPos charSeg C04_exU ⟨['a', ',', 'b', 'c'], 0, 16, false⟩ 0 .start .vi 2 = .ok (some 2) := by rfl
 example : wordTargetBwd charSeg C04_exU ['a', ',', 'b', 'c'] 4 .vi 2 = some 1 := by rfl
+
+
+/-! ## character searches whose count exceeds the number of occurrences (round 17)
+
+  `csTotal S buf pos cs` is the number of occurrences of the searched character in the region the search
+  scans (after the cluster under the cursor for `f`/`t`, before the cursor for `F`/`T`).  The theorems
+  `C04_char_search_*` above assume that the n-th occurrence exists; these say what the model — and, through
+  `./check C04`, the code — does for EVERY count. -/
+
+/-- No occurrence of the character in the region searched (any kind of search `f t F T`, any count ≥ 1, any
+    lawful segmenter, any well-formed state): the declarative spec has no target and the model's
+    `search_char_pos` answers `None`, so the cursor does not move and nothing is killed. -/
+theorem C04_char_search_nothing (S : Segmenter) (lb : LB) (cs : CharSearch) (n : Nat) (h : WF lb) (hn : n ≠ 0)
+    (h0 : csTotal S lb.buf lb.pos cs = 0) :
+    charSearchTarget S lb.buf lb.pos cs n = none ∧ LB.searchCharPos S lb cs n = .ok none :=
+  ⟨cs_target_none_of_total_zero S lb cs n h hn h0, searchCharPos_none_of_total_zero S lb cs n h h0⟩
+
+/-- The count of a character search is CLAMPED to the number `K ≥ 1` of occurrences: for every well-formed
+    state, every kind of search, every count `n ≥ 1` and every stable segmenter, the model lands on the
+    declarative target of the `min n K`-th occurrence (on it, one whole cluster before it, one whole cluster
+    after it).  For `n ≤ K` this is `C04_char_search_partial`; for `n > K` the model goes to the LAST occurrence
+    although the property's "n-th occurrence" does not exist. -/
+theorem C04_char_search_clamped (S : Segmenter) (hS : S.Stable) (lb : LB) (cs : CharSearch) (n t : Nat)
+    (h : WF lb) (hn : n ≠ 0) (hK : csTotal S lb.buf lb.pos cs ≠ 0)
+    (ht : charSearchTarget S lb.buf lb.pos cs (min n (csTotal S lb.buf lb.pos cs)) = some t) :
+    LB.searchCharPos S lb cs n = .ok (some t) := by
+  rw [searchCharPos_clamp S lb cs n h]
+  exact searchCharPos_eq_target S hS lb cs _ t h (by omega) ht
+
+/-- non-vacuity: "aXa", cursor 0, `5fa`: one occurrence after the cursor cluster, the model lands on it -/
+example : csTotal charSeg ['a', 'X', 'a'] 0 (.forward 'a') = 1 ∧
+    charSearchTarget charSeg ['a', 'X', 'a'] 0 (.forward 'a') (min 5 1) = some 2 ∧
+    LB.searchCharPos charSeg ⟨['a', 'X', 'a'], 0, 16, false⟩ (.forward 'a') 5 = .ok (some 2) := ⟨rfl, rfl, rfl⟩
+
+/-- FULL statement "the model's search target IS the declarative one" with the no-target case included (the
+    cursor stays when there is no n-th occurrence) — refuted by `C04_char_search_total_counterexample`. -/
+def C04_char_search_total_statement : Prop :=
+  ∀ (S : Segmenter) (lb : LB) (cs : CharSearch) (n : Nat), S.Stable → WF lb → n ≠ 0 →
+    LB.searchCharPos S lb cs n = .ok (charSearchTarget S lb.buf lb.pos cs n)
+
+/-- FINDING (F-C04-charsearch-count-overrun): "aXa", cursor 0, `2fa` — there is one `a` after the cursor, no
+    second occurrence, yet `search_char_pos` answers `Some(2)`: the cursor moves to the only occurrence (and
+    `d2fa` kills up to and including it). -/
+theorem C04_char_search_total_counterexample : ¬ C04_char_search_total_statement := by
+  intro hst
+  have := hst charSeg ⟨['a', 'X', 'a'], 0, 16, false⟩ (.forward 'a') 2 charSeg_stable (isBoundary_zero _) (by decide)
+  have e1 : LB.searchCharPos charSeg ⟨['a', 'X', 'a'], 0, 16, false⟩ (.forward 'a') 2 = .ok (some 2) := by rfl
+  have e2 : charSearchTarget charSeg ['a', 'X', 'a'] 0 (.forward 'a') 2 = none := by rfl
+  rw [e1, e2] at this
+  simp at this
+
+/-- the same input as a kill: `d2fa` on "aXa" removes the whole text although there is no second `a` -/
+example : (match LB.kill charSeg C04_exU (.viCharSearch 2 (.forward 'a')) ⟨['a', 'X', 'a'], 0, 16, false⟩ with
+    | .ok (_, lb', _) => lb'.buf
+    | _ => ['?']) = [] := by rfl
+
+/-- The EXACT set of inputs on which model and spec agree for the plain searches `f` / `F`, for every lawful
+    segmenter, well-formed state and count `n ≥ 1`: the model's answer equals the declarative target
+    (including "no target, stay") if and only if the count does not exceed the number of occurrences, or there
+    is no occurrence at all.  So the deviation recorded above happens exactly for `1 ≤ K < n`. -/
+theorem C04_char_search_plain_agree_iff (S : Segmenter) (lb : LB) (cs : CharSearch) (c : Char)
+    (hcs : cs = .forward c ∨ cs = .backward c) (n : Nat) (h : WF lb) (hn : n ≠ 0) :
+    LB.searchCharPos S lb cs n = .ok (charSearchTarget S lb.buf lb.pos cs n) ↔
+      (n ≤ csTotal S lb.buf lb.pos cs ∨ csTotal S lb.buf lb.pos cs = 0) := by
+  have hplain : ∀ m t, m ≠ 0 → charSearchTarget S lb.buf lb.pos cs m = some t →
+      LB.searchCharPos S lb cs m = .ok (some t) := by
+    intro m t hm ht
+    rcases hcs with rfl | rfl
+    · exact searchCharPos_forward_eq S lb c m t h hm ht
+    · exact searchCharPos_backward_eq S lb c m t h hm ht
+  by_cases hK : csTotal S lb.buf lb.pos cs = 0
+  · have := C04_char_search_nothing S lb cs n h hn hK
+    rw [this.1, this.2]
+    simp [hK]
+  · by_cases hle : n ≤ csTotal S lb.buf lb.pos cs
+    · have hs := cs_plain_isSome S lb cs c hcs n h hn
+      cases ht : charSearchTarget S lb.buf lb.pos cs n with
+      | none => rw [ht] at hs; simp at hs; omega
+      | some t => rw [hplain n t hn ht]; simp [hle]
+    · have hs := cs_plain_isSome S lb cs c hcs n h hn
+      have hsK := cs_plain_isSome S lb cs c hcs (csTotal S lb.buf lb.pos cs) h hK
+      cases htK : charSearchTarget S lb.buf lb.pos cs (csTotal S lb.buf lb.pos cs) with
+      | none => rw [htK] at hsK; simp at hsK
+      | some t =>
+        have hm : min n (csTotal S lb.buf lb.pos cs) = csTotal S lb.buf lb.pos cs := by omega
+        rw [searchCharPos_clamp S lb cs n h, hm, hplain _ t hK htK]
+        cases ht : charSearchTarget S lb.buf lb.pos cs n with
+        | none => simp [hle, hK]
+        | some u => rw [ht] at hs; simp at hs; omega
+
+
+/-! ## vi `e` / `E` (`At::BeforeEnd`) with a count of 1 (round 17)
+
+  `C04_word_target_beforeEnd_statement` (every count) is refuted above (F-C04-vi-e-count, witness with count 2).
+  For a count of 1 — plain `e` / `E`, the keys people type — the model target IS the declarative one, for every
+  lawful segmenter, every Unicode data and every well-formed state; so every input on which model and spec
+  differ has a count ≥ 2. -/
+
+/-- `C04_word_target_beforeEnd_statement` with the extra hypothesis `n = 1` (what is missing: counts ≥ 2, where
+    the statement is false): `next_word_pos(pos, BeforeEnd, Vi|Big, 1)` answers the start of the last cluster of
+    the first word end lying at least one cluster after the cluster under the cursor; when there is none, the
+    start of the last cluster of the text; `None` when the cursor is on the last cluster or at the text end. -/
+theorem C04_word_target_beforeEnd_partial (S : Segmenter) (U : UData) (lb : LB) (d : Word) (h : WF lb)
+    (hd : d ≠ .emacs) :
+    LB.nextWordPos S U lb lb.pos .beforeEnd d 1 = .ok (wordTargetFwd S U lb.buf lb.pos .beforeEnd d 1 true) :=
+  nextWordPos_beforeEnd_one S U lb d h hd
+
+/-- The motion itself: `move_to_next_word(At::BeforeEnd, Vi|Big, 1)` (vi `e` / `E`) from a well-formed state
+    leaves the text alone, puts the cursor on the declarative target, or leaves it where it was when there is no
+    target, and answers `true` exactly when there was a target. -/
+theorem C04_moveToNextWord_beforeEnd_one (S : Segmenter) (U : UData) (lb lb' : LB) (d : Word) (r : Bool)
+    (ns : List Notif) (h : WF lb) (hd : d ≠ .emacs)
+    (hrun : LB.moveToNextWord S U .beforeEnd d 1 lb = .ok (r, lb', ns)) :
+    lb'.buf = lb.buf ∧ ns = [] ∧
+      lb'.pos = (wordTargetFwd S U lb.buf lb.pos .beforeEnd d 1 true).getD lb.pos ∧
+      r = (wordTargetFwd S U lb.buf lb.pos .beforeEnd d 1 true).isSome := by
+  have ht := nextWordPos_beforeEnd_one S U lb d h hd
+  unfold LB.moveToNextWord at hrun
+  simp only [LM.bind_apply, LM.ro, ht] at hrun
+  cases hc : wordTargetFwd S U lb.buf lb.pos .beforeEnd d 1 true with
+  | none =>
+    simp [hc] at hrun
+    obtain ⟨rfl, rfl, rfl⟩ := hrun
+    simp
+  | some p =>
+    simp [hc, LM.setPos] at hrun
+    obtain ⟨rfl, rfl, rfl⟩ := hrun
+    simp
+
+/-- non-vacuity: "ab, c" from 0, `e` goes to 1 (the `b`); from 1 to 2 (the comma); "a,a" from 0 to 1;
+    on the last cluster it stays -/
+example : wordTargetFwd charSeg C04_exU ['a', 'b', ',', ' ', 'c'] 0 .beforeEnd .vi 1 true = some 1 := by rfl
+example : LB.nextWordPos charSeg C04_exU ⟨['a', 'b', ',', ' ', 'c'], 1, 16, false⟩ 1 .beforeEnd .vi 1 = .ok (some 2) := by rfl
+example : LB.nextWordPos charSeg C04_exU ⟨['a', ',', 'a'], 0, 16, false⟩ 0 .beforeEnd .vi 1 = .ok (some 1) := by rfl
+example : LB.nextWordPos charSeg C04_exU ⟨['a', ',', 'a'], 2, 16, false⟩ 2 .beforeEnd .vi 1 = .ok none := by rfl
